@@ -44,6 +44,9 @@ fn lists() -> Vec<(&'static str, Vec<RuleSpec>)> {
         ("L1", vec![(Some("request.target.port == 80"), "C"), (Some("request.listener == \"l1\""), "deny"), (None, "D")]),
         ("L2", vec![(Some("request.target.host == \"x.y\""), "B"), (Some("request.target.port != 80"), "A"), (None, "deny")]),
         ("EMPTY", vec![]),
+        // a rule without a filter that is not the last one: what stands behind it is never reached by a request, but it is
+        // part of the list all the same (and must compile, type-check and name an upstream)
+        ("L4", vec![(Some("request.listener == \"l1\""), "A"), (None, "B"), (Some("request.target.port == 80"), "C"), (Some("request.target.host == \"x.y\""), "D")]),
         // filters in which the layout matters: two blanks inside a string literal, a line comment in the middle of a
         // filter that spans two lines (read back through GET and posted again they must mean the same)
         ("L3", vec![(Some("request.target.host == \"x.y\" && \"a  b\" != \"a b\""), "A"), (Some("request.target.port == 80 # web\n|| request.listener == \"l1\""), "B"), (None, "deny")]),
@@ -406,7 +409,7 @@ fn check() {
         "exhaustive": !stats.capped.load(Ordering::Relaxed),
         "states": states, "transitions": transitions + stats.steps.load(Ordering::Relaxed), "traces_validated_against_impl": replays + ex,
         "evaluations": transitions + ex, "distinct_nontrivial": states as u64 + stats.distinct.len() as u64,
-        "rule": "histories: BFS over event histories on the real state (state id = canonical GET /rules output); every event (5 valid lists, one of them with layout-sensitive filters, each list broken at each position by syntax/type/unknown-target, GET-then-POST-back) from every reachable state and from non-initial histories up to the depth bound; 6 probe requests decided by the real process_request after every event. race: schedules of 1-2 rules_post callers + 2-3 process_request tasks, deviation bound 3 (thorough 4)",
+        "rule": "histories: BFS over event histories on the real state (state id = canonical GET /rules output); every event (6 valid lists, one with rules behind a catch-all, one of them with layout-sensitive filters, each list broken at each position by syntax/type/unknown-target, GET-then-POST-back) from every reachable state and from non-initial histories up to the depth bound; 6 probe requests decided by the real process_request after every event. race: schedules of 1-2 rules_post callers + 2-3 process_request tasks, deviation bound 3 (thorough 4)",
         "history_states": states, "history_transitions": transitions, "race_executions": ex, "race_interleaved": interleaved,
         "race_distinct_outcomes": stats.distinct.len(), "deviation_bound": if chk.thorough() {4} else {3},
         "samples": [{"history": ["PostValid(L1)", "PostBroken{base:L2,pos:1,kind:type}"], "expect": "500, list L1 still in force"}, {"race": "post NEW || req-l1 || req-l2, then a request that starts after the POST returned"}],
